@@ -213,7 +213,7 @@ theorem exec_step (s : Sys) (t : Nat) (op : Op) (hop : op.isCollectorOp = false)
       | some sp =>
         dsimp only
         cases sp.collectId with
-        | some cid => exact Step.sendCmd s t (.drop cid) true (fun _ => rfl)
+        | some cid => exact (Step.sendCmd s t (.drop cid) true (fun _ => rfl)).trans (Step.noteParked _ t cid)
         | none => exact Step.refl s
   | drop v =>
     simp only [exec]
